@@ -127,10 +127,25 @@ def regen(ctx):
         qrows = [(qm.group(i), qvals[qm.group(i)], qm.group(i + 1)) for i in (1, 3, 5)]
         lits += [("gc_marker", g["G1"]), ("gc_star", g["G2"]), ("gc_probe", g["G3"]), ("gc_lparen", glp),
                  ("gc_rparen", grp_), ("gc_nospace", g["G5"]), ("gc_space", g["G6"])]
+        # ---- new_array_type (src/c/_cffi_backend.c): the buffer the "[length]" text is printed into
+        from props import c06_extract
+        ctext = c06_extract.strip_c_comments(c06_extract.read(vlib.REPO, "src/c/_cffi_backend.c"))
+        ma = re.search(r"\nnew_array_type\(CTypeDescrObject \*ctptr, Py_ssize_t length\)\s*\{(.*?)\n\}", ctext, re.S)
+        if not ma:
+            raise py2coq.Untranslatable("new_array_type not found")
+        abody = ma.group(1)
+        mb = re.findall(r"\bchar\s+extra_text\s*\[\s*(\d+)\s*\]\s*;", abody)
+        mf = re.findall(r"(?:sprintf\(\s*extra_text\s*,|PyOS_snprintf\(\s*extra_text\s*,\s*sizeof\(extra_text\)\s*,)\s*"
+                        r"\"\[%llu\]\"\s*,\s*\(unsigned PY_LONG_LONG\)\s*length\s*\)", abody)
+        if len(mb) != 1 or len(mf) != 1 or "ctypedescr_new_on_top(ctitem, extra_text, 0)" not in abody:
+            raise py2coq.Untranslatable("new_array_type: extra_text buffer / \"[%llu]\" format not found once each")
+        array_buf = int(mb[0])
         head = open(gen).read().split("From Coq Require")[0]
-        text = head + "From Coq Require Import List NArith.\nImport ListNotations.\n" + "".join(
+        text = head + "From Coq Require Import List NArith ZArith.\nImport ListNotations.\n" + "".join(
             "Definition %s : list N := %s.\n" % (n, "[" + ";".join(str(ord(ch)) for ch in v) + "]%N" if v else
                                                 "(@nil N)") for n, v in lits)
+        text += ("(* new_array_type (src/c/_cffi_backend.c): `char extra_text[N]` receives \"[%%llu]\" of the length *)\n"
+                 "Definition c_array_extra_text_size : Z := %d%%Z.\n" % array_buf)
         text += ("(* model.qualify (src/cffi/model.py): (flag value, text) in the order of its if-statements: %s *)\n"
                  "Definition py_qualify_table : list (N * list N) := [%s].\n" % (
                      ", ".join(n for n, _v, _t in qrows),
@@ -219,6 +234,27 @@ def generate(ctx):
     for sw in ["float _Complex(*)(const fn)", "float _Complex(*)(const void)", "double _Complex(**)(fn)",
                "int(*)(const void, ...)", "float _Complex(*)(int, const void)"]:
         cases.append(dict(ctx=wctx, t=None, s=sw, xs=[dict(d=None, text=""), dict(d=None, text="v")]))
+    # array lengths around every power of ten up to sys.maxsize (the name must carry every digit: 19 of them for
+    # Py_ssize_t lengths), alone and in pointer-to-array / array-of-array / function positions; char items, so
+    # that the total size fits Py_ssize_t as the backend requires
+    import sys
+    lens = set([sys.maxsize, sys.maxsize - 1, 1 << 31, 1 << 32, 1 << 62])
+    for k in range(0, 19):
+        lens.update([10 ** k - 1, 10 ** k, 10 ** k + 1])
+    lens = sorted(n for n in lens if 0 < n <= sys.maxsize)
+    ectx = {"structs": [], "enums": [], "consts": [], "typedefs": []}
+    star = dict(G.empty_decl(), hdr=["*"])
+    for n in lens:
+        digits = len(str(n))
+        forms = ["char[%d]" % n]
+        if ctx.thorough or digits in (13, 14, 19):
+            forms += ["char(*)[%d]" % n, "char[1][%d]" % n, "int(*)(char(*)[%d])" % n, "char(*(*)(int))[%d]" % n,
+                      "char(*[3])[%d]" % n]
+            if n <= sys.maxsize // 2:
+                forms.append("char[2][%d]" % n)
+        for sform in forms:
+            cases.append(dict(ctx=ectx, t=None, s=sform,
+                              xs=[dict(d=None, text=""), dict(d=None, text="v"), dict(d=star, text=" * ")]))
     return cases
 
 
@@ -372,7 +408,8 @@ def evaluate(ctx, cases):
                 coq_lits.append("(%s, %s, %s, [%s])" % ("true" if side == "c" else "false", T, cstr(rs["cname"]), xs_lit))
                 owner.append((i, side))
                 # (c) gcc
-                if side == "c" and rs["sizeof"] is not None and "$" not in rs["cname"]:
+                # (objects larger than 64 KiB are not declared in the probe: it runs with them as locals)
+                if side == "c" and rs["sizeof"] is not None and rs["sizeof"] <= (1 << 16) and "$" not in rs["cname"]:
                     decl = next((xr.get("text") for x, xr in zip(c["xs"], rs["x"]) if x["text"].strip() == "v"), None)
                     if decl:
                         gcc_cases.append((gi, i, decl, rs["sizeof"], rs["cname"]))
@@ -596,7 +633,9 @@ def run_gcc(ctx, s, groups, cases, gcc_cases):
 def run(ctx):
     ctx.cov["rule"] = ("types: renderings of C07 syntax trees accepted by both FFIs, over random declaration contexts; "
                        "declarator suffixes: '*', '**', '[N]', '[]', '*[N]', '(*)(args)', '(**)(args)', '(*[4])(args)', "
-                       "'(*)[N]' with white-space padding, and plain names; both FFIs. Non-trivial = a (type, suffix) "
+                       "'(*)[N]' with white-space padding, and plain names; array lengths around every power of ten up to "
+                       "sys.maxsize (13/14/19-digit ones also behind pointers, inside arrays and in function types); both "
+                       "FFIs. Non-trivial = a (type, suffix) "
                        "pair whose getctype text was re-parsed.")
     ctx.assumptions += [
         "hand model C08/Model.v of ct_name construction (tied by this run's comparison with ct.cname on both FFIs)",
